@@ -34,7 +34,7 @@ def coverage_from(out, stats, spec, rule, extra=None):
         "states": stats.get("states", 0),
         "transitions": out.transitions,
         "traces_validated_against_impl": out.conform,
-        "evaluations": out.evaluations,
+        "evaluations": out.evaluations + out.transitions,
         "distinct_nontrivial": out.nontrivial,
         "rule": rule,
         "samples": out.samples[:3],
